@@ -180,7 +180,8 @@ C02Scen(v, strict, b, enc, dform, timing, nat, other, sackx) ==
         te(t) == [form |-> "te", from |-> Router(v, t), delay_us |-> rdelay(t), tag |-> "g"] @@ enc
                  @@ (IF nat THEN [mods_s |-> NatMods, mods |-> [q_sport |-> 1024]] ELSE [mods_s |-> NoMods])
         dst(t) == [form |-> dform, delay_us |-> rdelay(t), tag |-> "g"] @@ (IF dform = "sack" THEN [extra |-> sackx[1], desc |-> sackx[2]] ELSE [quote |-> "28"])
-                 @@ (IF dform \in {"du_port", "du_host", "du_admin"} THEN enc ELSE [qttl |-> 0])
+                 \* (direct replies - echo reply, SYN-ACK, RST, duplicate ACK - carry the outer IP options of the combination too)
+                 @@ (IF dform \in {"du_port", "du_host", "du_admin"} THEN enc ELSE [qttl |-> 0, ipopt |-> enc.ipopt])
         \* behaviour of the OTHER replies: all present / one lost / one duplicated / reordered (lower TTLs slower)
         hop(t) == CASE other = "loss" /\ t = 2 -> <<>>
                     [] other = "dup" /\ t = 2 -> <<te(t) @@ [dup |-> 1, dup_us |-> 150000]>>
